@@ -100,7 +100,7 @@ func runC09History(c *Ctx, idx int) {
 		stale := isStale(h)
 		before := stx.DirSnapshot(dir)
 		lbBefore := listBytes()
-		kinds := []string{"add", "add", "add", "newaddition", "compactall", "autocompact", "clean", "reopen", "add-big", "commit-noauto", "commit-noauto", "compactrange", "add-while-locked"}
+		kinds := []string{"add", "add", "add", "newaddition", "compactall", "autocompact", "clean", "reopen", "add-big", "commit-noauto", "commit-noauto", "compactrange", "add-while-locked", "compactexpiry"}
 		kind := kinds[rng.Intn(len(kinds))]
 		if opts.NoLogs && !stale && rng.Chance(0.25) {
 			kind = "compactall"
@@ -378,9 +378,13 @@ func runC09History(c *Ctx, idx int) {
 					return
 				}
 			}
-		case "compactall", "autocompact", "clean":
+		case "compactall", "autocompact", "clean", "compactexpiry":
 			err := rtx.Safe(func() error {
 				switch kind {
+				case "compactexpiry":
+					// the expiry path of a full compaction (other reload mode, rewrite of a
+					// single table) with limits that expire nothing
+					return h.CompactAll(&reftable.LogExpirationConfig{MinUpdateIndex: 1})
 				case "compactall":
 					return h.CompactAll(nil)
 				case "autocompact":
